@@ -129,7 +129,7 @@ func Gen(t *tape.Tape, base string, o Opts) *Layout {
 		top := &File{Path: l.Top + "/ntop.arrai", Kind: "arrai", Tag: "ntop#n"}
 		top.ModRoot = l.modRootOf(top.Dir())
 		top.Imports = []*Imp{{Target: mid, Spelling: "{./inner/nmid}"}}
-		if len(l.Files) > 0 && t.Bool(1, 2) {
+		if len(l.Files) > 0 && top.ModRoot != "" && t.Bool(1, 2) {
 			// an outer rooted import first, so that the outer root is already cached
 			for _, f := range l.Files {
 				if f.Kind == "arrai" && f.ModRoot == top.ModRoot && strings.HasPrefix(f.Path, top.ModRoot+"/") {
